@@ -377,6 +377,13 @@ def oracle_c12(b, report, hy):
                    % ([x[:3] for x in pp], [x[:3] for x in sp]), None)
         if (pr['first_usable_lba'], pr['last_usable_lba']) != (se['first_usable_lba'], se['last_usable_lba']):
             report('gpt-mirror-usable', 'primary and backup GPT usable ranges differ', None)
+        if pr['disk_guid'] != se['disk_guid'] or [p['part_guid'] for p in pr['partitions']] != [p['part_guid'] for p in se['partitions']] \
+                or pr['parts_crc'] != se['parts_crc']:
+            report('gpt-mirror-guids', 'the backup GPT does not describe the same disk / partitions as the primary: disk GUID %s vs %s, '
+                   'partition GUIDs %s, array CRC %08x vs %08x' % (pr['disk_guid'].hex()[:16], se['disk_guid'].hex()[:16],
+                                                                  'equal' if [p['part_guid'] for p in pr['partitions']] ==
+                                                                  [p['part_guid'] for p in se['partitions']] else 'differ',
+                                                                  pr['parts_crc'], se['parts_crc']), None)
         et = rd.eltorito
         if et is not None:
             efis = [e for sec in et['sections'] if sec.get('platform_id') == 0xef for e in sec['entries']]
